@@ -1135,4 +1135,6 @@ func genC09(tier string, rng *Rng) {
 	} else {
 		runOp([]string{"probec", "8", "12", strconv.FormatUint(rng.U64()%1000000, 10)})
 	}
+	// ownership of pooled objects along the paths of Serve (c09own.go)
+	genC09Own(tier, rng)
 }
